@@ -658,7 +658,7 @@ class Emitter:
                 m = re.match(r"\s*(\w+)\s*,", s.args)
                 if m and m.group(1) in opened:
                     opened.remove(m.group(1))
-            if s.kind == "fieldwrite" and re.match(r"^(self|parser)\s*\.\s*in_ordered_choice\s*=", s.text) and self.has_oc:
+            if s.kind == "fieldwrite" and re.match(r"^(self|parser)\s*\.\s*in_ordered_choice\s*=", s.text):
                 # a direct write of the choice flag: the tree part of the state is untouched; name the
                 # states so that facts about boundary marks carry over (quantifier instantiation hint)
                 self.nassert += 1
@@ -669,7 +669,7 @@ class Emitter:
                 j = s.i0
                 while self.ix.st[j].t != ";":
                     j += 1
-                self.ed.insert(self.ix.st[j].e, "\n            proof { assert(forall|k: int| #[trigger] %s.mk(k) ==> %s.mk(k)); assert(forall|k: int| #[trigger] %s.mk(k) ==> %s.mk(k)); }" % (a, r, r, a))
+                self.ed.insert(self.ix.st[j].e, "\n            proof { reveal(Parser::twf); reveal(Parser::ewf); reveal(Parser::mk); assert(%s.twf() == %s.twf()); assert(%s.ewf() == %s.ewf()); assert(forall|k: int| #[trigger] %s.mk(k) ==> %s.mk(k)); assert(forall|k: int| #[trigger] %s.mk(k) ==> %s.mk(k)); }" % (r, a, r, a, a, r, r, a))
             if s.kind == "loop":
                 self.emit_loop(s, opened, closed)
                 self.walk(s.body, opened, closed)
@@ -848,6 +848,10 @@ class Emitter:
             inv.append("%s ==> %s.pos == p_%d,   // [C03]" % (tokset("c_%d" % k, N, self.alphabet), r, k))
         ind = " " * 12
         pre = "let ghost p_%d = %s.pos; let ghost c_%d = %s.current;\n%s" % (k, r, k, r, ind)
+        if self.attempt > 0:
+            # a loop inside an inlined alternative may be left by `break 'alt_K`: Verus wants such a loop
+            # to be non-isolated like the pseudo-loop around it (its invariants are unchanged)
+            pre += self.PSEUDO_ATTR
         self.ed.insert(st[s.i_kw].s, pre)
         txt = "\n%s  invariant\n%s    %s\n" % (ind, ind, ("\n%s    " % ind).join(inv))
         if ens:
